@@ -23,7 +23,15 @@ pub enum QueryKind {
     /// `type_of(f, arg)` with a raw expression id
     TypeOfId,
     ExprAt,
+    /// `resolve_name(f, NAMES[arg])` (only issued by the concurrent-readers search)
+    ResolveName,
 }
+
+/// Names asked by `ResolveName` (pool names of the project generator, any spelling).
+pub const RESOLVE_NAMES: &[&str] = &[
+    "AddOne", "Main", "TPoint", "Motor", "gCount", "Scale", "aux", "TCOLOR", "Lib", "x", "r",
+    "IDevice", "Clamp", "Valve", "TLevel", "Conf", "Red", "nosuchname",
+];
 
 #[derive(Clone, Debug, Serialize, Deserialize, PartialEq, Eq)]
 pub enum Op {
@@ -617,6 +625,14 @@ pub const DB_CFG: GenCfg = GenCfg {
     max_live: NFILES,
     max_ops: MAX_OPS,
     weights: [38, 34, 6, 5, 5, 2, 3, 2, 2, 1, 0, 2],
+};
+
+/// Shorter histories for the concurrent-readers search (each case is repeated several times).
+pub const READERS_CFG: GenCfg = GenCfg {
+    nslots: NFILES,
+    max_live: NFILES,
+    max_ops: 20,
+    weights: [30, 40, 5, 4, 4, 2, 3, 2, 2, 1, 0, 6],
 };
 
 /// More removals / additions / renames, eight keys of which at most six are live, so that
